@@ -63,10 +63,17 @@ CtorWantOk(e) ==
   CASE e.fn = "Dual::try_new" -> e.nd = 0 \/ e.nd = e.nvars
     [] e.fn = "Dual2::try_new" -> (e.nd = 0 \/ e.nd = e.nvars) /\ (e.n2 = 0 \/ e.n2 = e.nvars * e.nvars)
     [] e.fn = "Ccy::try_new" -> e.nbytes = 3                       \* byte length of the LOWER-CASED code (what is stored)
-    [] e.fn = "FXPair::try_new" -> e.la = 3 /\ e.lb = 3 /\ ~e.same
+    \* (a pair is two DISTINCT three-letter codes, whoever builds it: the pair constructor, the quote constructor, Python's FXRate(...))
+    [] e.fn \in {"FXPair::try_new", "FXRate::try_new", "FXRate.__new__"} -> e.la = 3 /\ e.lb = 3 /\ ~e.same
     [] e.fn = "csolve" -> (e.ntau = e.n \/ (e.lsq /\ e.ntau > e.n)) /\ e.ny = e.ntau
     [] e.fn = "FXRates::try_new" -> e.tree
-CtorVerdict(e) == IF e.o = "panic" THEN "panic"
+\* the asserting constructors return a plain value: a wrong shape is refused by aborting (that IS their refusal), a right
+\* one must be built - what may never happen is a mis-shaped number coming out
+Asserting == {"Dual::clone_from", "Dual2::clone_from"}
+AssertWantOk(e) == IF e.fn = "Dual::clone_from" THEN e.nd = e.nvars ELSE e.nd = e.nvars /\ e.rows = e.nvars /\ e.cols = e.nvars
+CtorVerdict(e) == IF e.fn \in Asserting THEN (IF AssertWantOk(e) /\ e.o # "ok" THEN "valid-arguments-rejected"
+                                               ELSE IF ~AssertWantOk(e) /\ e.o = "ok" THEN "invalid-arguments-accepted" ELSE "")
+                  ELSE IF e.o = "panic" THEN "panic"
                   ELSE IF CtorWantOk(e) /\ e.o # "ok" THEN "valid-arguments-rejected"
                   ELSE IF ~CtorWantOk(e) /\ e.o # "err" THEN "invalid-arguments-accepted"
                   ELSE IF e.o = "ok" /\ "shape" \in DOMAIN e /\ ShapeViol(e.shape) # {} THEN "shape"
